@@ -69,6 +69,16 @@ static void harness_abort(char const *what)
     abort();
 }
 
+/* a destructor without side effects on the queue: it only counts its calls.  a_que_drop / a_que_setz get it instead of NULL so that
+   "a failed operation leaves the previous contents intact" also covers the elements themselves: a call that reports failure must not
+   have destroyed any element (the model is the dtor = NULL one; a counting destructor does not change what it describes) */
+static long ndtor;
+static void count_dtor(void *p)
+{
+    (void)p;
+    ++ndtor;
+}
+
 static void *shim(void *addr, a_size size)
 {
     int ok, i;
@@ -279,8 +289,18 @@ static int run_q(char const *op, char **t, int n, long *res)
         a_que_swap_(l + 1, r + 1);
     }
     else if (!strcmp(op, "swap") && n == 2) { a_que_swap(&que[sel(t[0])], &que[sel(t[1])]); }
-    else if (!strcmp(op, "drop") && n == 1) { *res = a_que_drop(q, A_NULL); }
-    else if (!strcmp(op, "setz") && n == 2) { *res = a_que_setz(q, (a_size)strtoull(t[1], A_NULL, 10), A_NULL); }
+    else if (!strcmp(op, "drop") && n == 1)
+    {
+        long const before = ndtor;
+        *res = a_que_drop(q, count_dtor);
+        if (*res != 0 && ndtor != before) { harness_abort("a_que_drop reported failure but had already called the element destructor"); }
+    }
+    else if (!strcmp(op, "setz") && n == 2)
+    {
+        long const before = ndtor;
+        *res = a_que_setz(q, (a_size)strtoull(t[1], A_NULL, 10), count_dtor);
+        if (*res != 0 && ndtor != before) { harness_abort("a_que_setz reported failure but had already called the element destructor"); }
+    }
     else { return 0; }
     return 1;
 }
